@@ -41,7 +41,8 @@ PROBES = ['rows_unsorted', 'multi_call_partition', 'custom_var',
           'eviction_inside_over_time', 'single_step', 'nonscalar_custom',
           'estimates_only_call', 'repeated_request', 'tensor_input_columns',
           'frozen_checked_instances', 'mixed_type_temporal_column',
-          'several_customs_in_one_dict', 'unknown_names_skipped']
+          'several_customs_in_one_dict', 'unknown_names_skipped',
+          'custom_shadows_builtin']
 COMPONENTS = dict(cc.COMPONENTS)
 COMPONENTS['aurel.time.over_time / process_single_timestep / validate_*'] = \
     'real'
@@ -64,13 +65,19 @@ CUSTOM_VARS = {
     'alpha_p1': lambda rel: rel['alpha'] + 1.0,
     'gup_xx': lambda rel: rel['gammaup3'][0, 0] * 1.0,
     'beta2': lambda rel: rel['betaup3'] * 2.0,          # non-scalar
+    # a custom variable that carries the NAME of a built-in quantity with a
+    # default assumption: it must override the default for every built-in
+    # computed in the same or a later call
+    'press': lambda rel: 0.05 * rel['gammadet'] + 0.01,
 }
+SHADOWING = ('press',)
 CUSTOM_EST = {
     'p90': lambda a: np.percentile(a, 90),
     'range': lambda a: np.max(a) - np.min(a),
     'corner': lambda a: a[-1, 0, -1],
 }
-ALG_VARS = ['Ktrace', 'gammadet', 'A2', 's_RicciS', 'Hamiltonian', 'gdet',
+ALG_VARS = ['enthalpy', 'Ttrace', 'rho_n',
+            'Ktrace', 'gammadet', 'A2', 's_RicciS', 'Hamiltonian', 'gdet',
             'rho_n', 'Kup3', 'betamag', 'psi_bssnok', 'Momentumx', 'gtt',
             'press_n', 'dtKtrace', 'Hamiltonian_norm', 'gammaup3',
             's_Gamma_udd3']
@@ -105,10 +112,16 @@ def generate(rng, tier):
     seen, uniq = set(), []
     for v in vars_:
         k = v.get('name') or v.get('custom')
-        if k not in seen:
+        if k not in seen and k not in SHADOWING:
             seen.add(k)
             uniq.append(v)
     vars_ = uniq
+    if (g.chance(0.25) and cfg['cls'] == 'OFF'
+            and 'press' not in cfg.get('fluid', [])
+            and 'Tdown4' not in cfg.get('extra_inputs', [])):
+        # first entry of the first call, so that no built-in of an earlier
+        # call has been computed with the default pressure
+        vars_ = [{'custom': 'press'}] + vars_
     ests = []
     for _ in range(g.randint(1, 4)):
         ests.append({'custom': g.pick(sorted(CUSTOM_EST))} if g.chance(0.3)
@@ -205,6 +218,18 @@ def _vname(v):
     return v.get('name') or v.get('custom')
 
 
+def _fresh(run, world):
+    """Fresh no-eviction instance for one step, as over_time presents it to a
+    built-in: inputs + custom attribute + the shadowing custom variables."""
+    rel, _ = world.make(knobs=False)
+    rel.myscale = run['myscale']
+    for v in run['vars']:
+        if v.get('custom') in SHADOWING:
+            rel.data[v['custom']] = CUSTOM_VARS[v['custom']](rel)
+            rel.var_importance[v['custom']] = 0
+    return rel
+
+
 def execute(run):
     import aurel
     import aurel.core as core
@@ -289,6 +314,8 @@ def execute(run):
                     else:
                         vlist.append({v['custom']: CUSTOM_VARS[v['custom']]})
                     probe('custom_var')
+                    if v['custom'] in SHADOWING:
+                        probe('custom_shadows_builtin')
                     if v['custom'] == 'detscale':
                         probe('custom_attribute_used')
                     if v['custom'] == 'beta2':
@@ -410,10 +437,11 @@ def _check_table(run, cfg, worlds, order, tkey, tval, data, bad, tr):
         nm = _vname(v)
         col = []
         for k in srt:
-            rel, _ = worlds[k].make(knobs=False)
-            rel.myscale = run['myscale']
+            rel = _fresh(run, worlds[k])
             if 'name' in v:
                 col.append(rel[v['name']])
+            elif v['custom'] in SHADOWING:
+                col.append(rel.data[v['custom']])
             else:
                 col.append(CUSTOM_VARS[v['custom']](rel))
         fresh_cols[nm] = col
@@ -452,8 +480,7 @@ def _check_table(run, cfg, worlds, order, tkey, tval, data, bad, tr):
         for r, k in enumerate(srt):
             touched = set()
             if 'name' in v:
-                f = worlds[k]
-                rel, _ = f.make(knobs=False)
+                rel = _fresh(run, worlds[k])
                 rel[v['name']]
                 touched = rel._m['touched']
             tol = eng.tolerances(set(touched), nm)
